@@ -144,6 +144,16 @@ def run_case(case):
                 with warnings.catch_warnings():
                     warnings.simplefilter("ignore")
                     data = read_json(io.StringIO(images[k].decode()))
+                    if (k + case.get("n", 0)) % 3 == 0:
+                        # the loaded dictionary is the user's: a first simulation rebuilt from it (and run) must not
+                        # change what a second rebuild from the same dictionary gives
+                        first = cls.from_dict(data)
+                        first.atoms.calc = M.fresh_calc_like(scn["calc"], scn["atoms"])
+                        for _ in first.srun(min(2, n - k)):
+                            pass
+                        first.close()
+                        if "rebuilt-twice-from-one-dictionary" not in labels:
+                            labels.append("rebuilt-twice-from-one-dictionary")
                     sim = cls.from_dict(data)
                     sim.atoms.calc = M.fresh_calc_like(scn["calc"], scn["atoms"])
                     got = []
